@@ -59,10 +59,10 @@ def run(tier, seed, replay=None):
         standard_corr(R, 'c14', 'fault-histories-search', tier='thorough', compare=compare_gen_aware)
     if r:
         cnt = r['stats'].get('counters', {})
-        R.cov['distinct_nontrivial'] = cnt.get('oracle_fault', 0)
+        R.cov['distinct_nontrivial'] = cnt.get('oracle_fault', 0) + cnt.get('oracle_poison', 0)
         R.cov['exhaustive'] = True
         R.cov['rule'] = ('120 (quick) / 600 (thorough) inputs = 12 solver configurations (SymEigs, SymEigsShift, HermEigs, GenEigs, GenEigsRealShift, GenEigsComplexShift incl. probing solves, '
                          'SymGEigs Cholesky x2 / RegularInverse, SymGEigsShift ShiftInvert/Buckling/Cayley) x 8 matrix families x 4 scalings, n <= 8 (12), random rules/maxit/tol; per input EXHAUSTIVELY '
                          'k = 1..K (K = A+B operator applications of the fault-free run, inputs with K > 90 (400) skipped and counted), on an already used object and on a fresh object; every 4th (2nd) k a second fault '
-                         'at a random index of the recovery run; non-trivial = faulted calls judged')
+                         'at a random index of the recovery run; plus fault kind "poison" on every SymGEigsSolver<RegularInverse> input with the real Spectra::SparseRegularInverse as B operator: exhaustively k = 1..K_A, the user A-operator RETURNS a NaN vector at its k-th application so that the library own thrower (SparseRegularInverse::solve -> std::runtime_error) fires inside the operator stack; required: std::runtime_error leaves the call, heap balance, bitwise recovery on the same solver and B-operator objects; non-trivial = faulted calls judged')
     return R.finish()
